@@ -20,9 +20,12 @@ import (
 //	await      background-consumer mode: wait until the consumer received a signal at or after the last
 //	           strobe began, at most Us microseconds
 //	terminate  Terminate() (under a watchdog)
+//	termrace   Terminate() in its own goroutine while the director makes one receive attempt (poll); First
+//	           (terminate|recv) gets a head start of Us microseconds; then waits for Terminate
 type cop struct {
-	Op string `json:"op"`
-	Us int    `json:"us,omitempty"`
+	Op    string `json:"op"`
+	Us    int    `json:"us,omitempty"`
+	First string `json:"first,omitempty"`
 }
 
 type ccase struct {
@@ -149,6 +152,28 @@ func coalescerCase(cc ccase) map[string]any {
 		case "terminate":
 			t0, t1, ok := guard(co.Terminate)
 			terms = append(terms, map[string]any{"t0": t0, "t1": t1, "ret": ok})
+		case "termrace":
+			if cc.Bg {
+				continue
+			}
+			start := make(chan struct{})
+			tdone := make(chan struct{})
+			first, off := op.First, op.Us
+			go func() {
+				defer close(tdone)
+				<-start
+				if first != "terminate" {
+					spin(off)
+				}
+				t0, t1, ok := guard(co.Terminate)
+				terms = append(terms, map[string]any{"t0": t0, "t1": t1, "ret": ok})
+			}()
+			close(start)
+			if first == "terminate" {
+				spin(off)
+			}
+			attempt(0, nil)
+			<-tdone // guard returns within its watchdog
 		}
 	}
 	if cc.Bg {
@@ -273,6 +298,46 @@ func genCoalescerCase(r *rand.Rand, deep bool) ccase {
 	return cc
 }
 
+// genTermKeepCase: strobe(s); then nobody receives for the window plus more
+// than the slack, so the signal has been emitted into the buffer; then
+// Terminate(); only then (or racing Terminate) the consumer polls: the signal
+// must still be there, exactly once. All window values.
+func genTermKeepCase(r *rand.Rand) ccase {
+	ns := []int64{-5000000, 0, 1, 1000, 1000000, 20000000, 50000000, 100000000}[r.Intn(8)]
+	w := int(ns / 1000)
+	if w < 0 {
+		w = 0
+	}
+	cc := ccase{WindowNs: ns}
+	s := []cop{}
+	if r.Intn(3) == 0 { // an earlier burst whose signal is consumed
+		s = append(s, cop{Op: "strobe"}, cop{Op: "recv", Us: w + 2600000})
+	}
+	n := 1 + r.Intn(3)
+	for i := 0; i < n; i++ {
+		s = append(s, cop{Op: "strobe"})
+		if i < n-1 {
+			s = append(s, cop{Op: "sleep", Us: []int{0, 20, w / 3, w / 2}[r.Intn(4)]})
+		}
+	}
+	s = append(s, cop{Op: "sleep", Us: w + 2150000 + r.Intn(200000)}) // nobody receives
+	switch r.Intn(3) {
+	case 0:
+		s = append(s, cop{Op: "terminate"}, cop{Op: "drain"})
+	case 1:
+		s = append(s, cop{Op: "terminate"}, cop{Op: "strobe"}, cop{Op: "sleep", Us: w + 5000}, cop{Op: "drain"})
+	default:
+		first := "terminate"
+		if r.Intn(2) == 0 {
+			first = "recv"
+		}
+		s = append(s, cop{Op: "termrace", First: first, Us: []int{0, 0, 2, 5, 20, 100}[r.Intn(6)]}, cop{Op: "drain"})
+	}
+	s = append(s, cop{Op: "drain"})
+	cc.Script = s
+	return cc
+}
+
 func emitCoalescerCase(c *vlib.Ctx, cid int, cc ccase, rec map[string]any) {
 	rec["cid"] = cid
 	rec["in"] = cc
@@ -296,7 +361,11 @@ func runCoalescer(c *vlib.Ctx) error {
 	par := argInt(c, "par", 32)
 	cases := make([]ccase, n)
 	for i := range cases {
-		cases[i] = genCoalescerCase(caseRand(c.Seed, i), deep)
+		if i%5 == 4 {
+			cases[i] = genTermKeepCase(caseRand(c.Seed, i))
+		} else {
+			cases[i] = genCoalescerCase(caseRand(c.Seed, i), deep)
+		}
 	}
 	recs := parallel(n, par, func(i int) map[string]any { return coalescerCase(cases[i]) })
 	for i, rec := range recs {
